@@ -19,7 +19,7 @@ theorem scopeOK_emit (es : List Err) : ScopeOK (emit es) := by
   | none => rfl
   | some k => dsimp only; split <;> rfl
 
-theorem scopeOK_nothing : ScopeOK nothing := scopeOK_emit []
+theorem scopeOK_nothing : ScopeOK nothing := ⟨fun _ _ => rfl⟩
 
 theorem scopeOK_stopG (s : Stop) : ScopeOK (stopG s) := ⟨fun _ _ => rfl⟩
 theorem scopeOK_raiseG (e : Exc) : ScopeOK (raiseG e) := ⟨fun _ _ => rfl⟩
@@ -176,6 +176,7 @@ namespace JS
 
 theorem scopeClosed (env : Env) : Closed env ScopeOK where
   emit := scopeOK_emit
+  nothing := scopeOK_nothing
   stop := fun s _ => scopeOK_stopG s
   andThen := scopeOK_andThen
   mapErrs := scopeOK_mapErrs
